@@ -275,6 +275,11 @@ def r6(idx, rep):
             if aspect == "clear-errors" and not ok:
                 badc = badc or detail
     rep.check(badc is None, "R6", f"{fm.file}::Matcher.matches table clear-errors", badc or f"{len(rows)} rows", K.where(fm, fm.node))
+    # … on the blank last line too (the last()s fired there run outside the expressions' own handlers)
+    from . import c13
+    c13.r1(idx, K.as_rule(rep, "R6", keep=lambda k: "blank-last branch" in k), "quick")
+    # the handler a run method builds for a member collects into the member's result, whatever that result holds so far
+    c05.collector_table(idx, rep, "R6")
     # Result.collect_error keeps every error; errors.json is written from result.errors
     fc, ps = K.sym_result(idx, "Result", "collect_error", args={"error": "E2"}, store={"self._errors": ["E1"]})
     rep.check(len(ps) == 1 and ps[0].final_store.get("self._errors") == ["E1", "E2"], "R6", f"{fc.file}::Result.collect_error appends", f"{ps[0].final_store.get('self._errors')}", K.where(fc, fc.node))
